@@ -74,9 +74,9 @@ func (b ObjectBuilder) AddType(name string, sc schema.Schema) error {
 	return nil
 }
 
-func (b ObjectBuilder) Build() *jschema.JSchema {
+func (b ObjectBuilder) Build() (*jschema.JSchema, error) {
 	s := b.schema
-	_ = s.LoadOnce.Do(func() (err error) {
+	err := s.LoadOnce.Do(func() (err error) {
 		defer func() {
 			err = panics.Handle(recover(), err)
 		}()
@@ -84,8 +84,14 @@ func (b ObjectBuilder) Build() *jschema.JSchema {
 		loader.CompileBasic(s.Inner, s.AreKeysOptionalByDefault)
 		return nil
 	})
+	if err != nil {
+		return nil, err
+	}
 
-	_ = s.Compile()
+	// e.g. an example that violates its rule, a rule naming an undefined type
+	if err := s.Compile(); err != nil {
+		return nil, err
+	}
 
-	return s
+	return s, nil
 }
